@@ -1,7 +1,8 @@
 import Driver.Util
 import LemoModel.Wal
+import LemoModel.Bitcask
 namespace Driver.C08
-open LemoModel LemoModel.Wal Driver
+open LemoModel LemoModel.Wal LemoModel.Bitcask Driver
 
 structure St where
   file : Bytes := []
@@ -9,6 +10,7 @@ structure St where
   wfile : Bytes := []
   woff : Nat := 0
   wpend : Nat := 0
+  b : Sys := Sys.init      -- queue + one bitcask at durable-step granularity (LemoModel.Bitcask)
 
 def hexDigit (n : Nat) : Char :=
   if n < 10 then Char.ofNat (48 + n) else Char.ofNat (87 + n)
@@ -88,8 +90,81 @@ def parseRecs? : List String → Option (List Record)
     | some r, some rs => some (r :: rs)
     | _, _ => none
 
+def parseKey? (w : String) : Option (Nat × Bytes) :=
+  match w.splitOn ":" with
+  | [f, k] =>
+    match f.toNat?, parseHex? k with
+    | some f, some k => some (f, k)
+    | _, _ => none
+  | _ => none
+
+def showGet : GetRes → String
+  | .notFound => "none"
+  | .err e => s!"err:{e}"
+  | .ok v => s!"ok {v.length}:{fnv32 v}"
+
+def showPos : Option Nat → String
+  | none => "none"
+  | some o => toString o
+
+def showBC (b : Sys) : String := s!"cur={b.bc.cur} size={b.bc.file.length}"
+
+/-- `n` durable steps of the writer -/
+def bSteps (b : Sys) (n : Nat) : Sys := (List.replicate n (Op.step 0)).foldl (Bitcask.step false) b
+
+def headKey (b : Sys) : Option StoreKey := b.q.pending.head?.map (fun r => (r.flg, r.key))
+
+def showHeadPos (b : Sys) (k : Option StoreKey) : String :=
+  match k with
+  | none => "none"
+  | some k => showPos (b.bc.pos k)
+
 def step (s : St) (w : List String) : St × String :=
   match w with
+  | ["bnew"] => ({ s with b := Sys.init }, "ok")
+  | ["bput", w1] =>
+    match parseRec? w1 with
+    | some r =>
+      let b := Bitcask.step false s.b (.put r)
+      ({ s with b := b }, s!"pend={b.q.pending.length} wal={b.q.wal.length}")
+    | none => (s, "bad-op")
+  | ["bdone"] =>
+    -- the writer stores the oldest pending record completely (three durable steps) and reports Done
+    let k := headKey s.b
+    let b := bSteps s.b 3
+    ({ s with b := b }, s!"{showBC b} pos={showHeadPos b k}")
+  | ["bcrash", n] =>
+    -- the process dies after `n` durable steps of the put of the oldest pending record; restart
+    match n.toNat? with
+    | some n =>
+      let k := headKey s.b
+      let b := Bitcask.step false (bSteps s.b (min n 3)) .crash
+      ({ s with b := b }, s!"{showBC b} pend={b.q.pending.length} pos={showHeadPos b k}")
+    | none => (s, "bad-op")
+  | ["btorn", c] =>
+    -- the process dies in the middle of the data-file write of the oldest pending record: `c` bytes written; restart
+    match c.toNat? with
+    | some c =>
+      let k := headKey s.b
+      let b := Bitcask.step false s.b (.torn 0 c)
+      ({ s with b := b }, s!"{showBC b} pend={b.q.pending.length} pos={showHeadPos b k}")
+    | none => (s, "bad-op")
+  | ["bget", w1] =>
+    match parseKey? w1 with
+    | some (f, k) => (s, showGet (bcGet s.b.bc f k))
+    | none => (s, "bad-op")
+  | ["bdrain"] =>
+    let b := drain false s.b
+    ({ s with b := b }, s!"{showBC b} pend={b.q.pending.length}")
+  | ["bputd", w1] =>
+    match parseRec? w1 with
+    | some r =>
+      let b := drain false (Bitcask.step false s.b (.put r))
+      ({ s with b := b }, s!"{showBC b} pos={showPos (b.bc.pos (r.flg, r.key))}")
+    | none => (s, "bad-op")
+  | ["brestart"] =>
+    let b := drain false (Bitcask.step false s.b .crash)
+    ({ s with b := b }, s!"{showBC b} pend={b.q.pending.length}")
   | ["headlen"] => (s, toString (encodeHead 0 0 0 0).length)
   | ["enc", f, k, v] =>
     match f.toNat?, parseHex? k, parseHex? v with
